@@ -204,4 +204,4 @@ def run_unit(template: str, build_root: str, defines=(), seed: int | None = None
     obligations = _parse_air(os.path.join(bdir, 'logs'), unit) if log_air else {}
     shutil.rmtree(os.path.join(bdir, 'logs'), ignore_errors=True)
     return UnitResult(unit, tuple(defines), path, a, tool_error is None, tool_error, functions, diags, obligations,
-                      verified, errors, wall, smt_ms, ' '.join(cmd), p.stderr[-4000:] if tool_error else '')
+                      verified, errors, wall, smt_ms, ' '.join(cmd), ('\n'.join(d.rendered for d in diags if d.level == 'error')[-3000:] or p.stderr[-1500:]) if tool_error else '')
